@@ -354,7 +354,7 @@ def rule_orient(repo, tier):
 @guarded
 def rule_pf(repo, tier):
     res = RuleResult('C13.PF', 'PF: particles ~ N(x, n P) -> model -> weights(y, ye, R) -> resample -> mean / covariance + Q', floor=4)
-    f = repo.func(PF, 'PF.forward')
+    f = __import__('sa.core', fromlist=['x']).ifexp_view(repo.func(PF, 'PF.forward'))
     rets = returns_of(f.node)
     v0 = rv(f.node, rets[0]) if len(rets) == 1 else None
     if not isinstance(v0, ast.Tuple) or len(v0.elts) != 2:
